@@ -1144,8 +1144,11 @@ pub trait RwsReplace {
     fn rws_replace(&self, from: &str, to: &str) -> (r: String)
         ensures
             from@.len() == 1 && to@.len() == 0 ==> r@ == without_char(self.sv7(), from@[0]),
-            from@ == to@ ==> r@ == self.sv7();
+            from@ == to@ ==> r@ == self.sv7(),
+            from@.len() == 1 && to@.len() == 1 ==> r@ == subst_char(self.sv7(), from@[0], to@[0]);
 }
+// every occurrence of the character a replaced by the character b
+pub open spec fn subst_char(s: Seq<char>, a: char, b: char) -> Seq<char> { Seq::new(s.len(), |i: int| if s[i] == a { b } else { s[i] }) }
 impl RwsReplace for str {
     open spec fn sv7(&self) -> Seq<char> { self@ }
     #[verifier::external_body]
